@@ -383,6 +383,17 @@ Theorem indicator_sum_constraint_prox : forall n (c k : R) (w x : list R), 0 < k
 Proof. exact sumc_leaf_prox. Qed.
 Print Assumptions indicator_sum_constraint_prox.
 
+(* proximal_convex_conj_l1_l2(space, lam, g): the conjugate of lam*GroupL1Norm(. - g) is the indicator of
+   {pointwise 2-norm <= lam} plus <., g>_w; the factory projects every point of x - sigma g onto the lam-ball *)
+Theorem factory_convex_conj_l1_l2 : forall m d lam (g wb x : list R) (s : R), 0 < lam -> 0 < s -> (1 <= d)%nat ->
+  allpos wb -> length wb = m -> length g = (d * m)%nat -> length x = (d * m)%nat ->
+  let w := concat (repeat wb d) in
+  is_proxs (d * m)
+    (fun z => if forallb (fun a => Rleb a (lam * lam)) (pw_normsq m d z) then Some (wdot w z g) else None)
+    (metric w (repeat s (d * m))) x (prox_cc_l1_l2 m d lam (Some g) s x).
+Proof. exact ccl1l2_factory_prox. Qed.
+Print Assumptions factory_convex_conj_l1_l2.
+
 (* Kullback-Leibler (values involve ln, so these leaves are outside the executable tree model; the proximal
    formulas are the model's, tied by the correspondence):
    proximal_convex_conj_kl(space, lam, g)(sigma)(x) = (x + lam - sqrt((x-lam)^2 + 4 lam sigma g))/2 is the proximal
